@@ -1,6 +1,7 @@
 package props
 
 import (
+	"encoding/json"
 	"errors"
 	"fmt"
 	"sort"
@@ -97,6 +98,12 @@ func c14canon(v any) string {
 	case nil:
 		return "<nil>"
 	case string:
+		if strings.HasPrefix(x, "[") {
+			var l []any
+			if json.Unmarshal([]byte(x), &l) == nil {
+				return c14canon(l) // a list as the serialising tiers hand it back
+			}
+		}
 		return x
 	case []any:
 		s := make([]string, len(x))
@@ -114,10 +121,20 @@ type c14cache struct {
 	*simstore.Store
 	lg   *c14log
 	tier string
+	// serialise: the tier is the Redis stand-in; like the Redis backend it keeps non-string values as
+	// JSON text, so nothing it hands out shares memory with what it was given.
+	serialise bool
 }
 
 func (c *c14cache) Set(k string, v any, ttl time.Duration) error {
-	err := c.Store.Set(k, v, ttl)
+	stored := v
+	if _, isStr := v.(string); c.serialise && !isStr {
+		// the Redis backend stores json.Marshal(value) and hands back the string
+		if b, jerr := json.Marshal(v); jerr == nil {
+			stored = string(b)
+		}
+	}
+	err := c.Store.Set(k, stored, ttl)
 	c.lg.add(c.tier, "cache", "Set", k, c14canon(v), false, err)
 	return err
 }
@@ -141,10 +158,20 @@ func (c *c14cache) Exists(k string) (bool, error) {
 type c14persist struct {
 	*simstore.Persist
 	lg *c14log
+	// serialise: the tier keeps a private serialised copy of non-string values (remote gRPC storage,
+	// database); otherwise it keeps the very value it was handed (the JSON-file tier keeps it in a map
+	// until the next save), so slices are shared with whoever else holds them.
+	serialise bool
 }
 
 func (p *c14persist) Set(k string, v any) error {
-	err := p.Persist.Set(k, v)
+	stored := v
+	if _, isStr := v.(string); p.serialise && !isStr {
+		if b, jerr := json.Marshal(v); jerr == nil {
+			stored = string(b)
+		}
+	}
+	err := p.Persist.Set(k, stored)
 	p.lg.add("persist", "persist", "Set", k, c14canon(v), false, err)
 	return err
 }
@@ -262,7 +289,12 @@ func c14build(w *simrt.World, wantNodes int, faults bool) *c14env {
 		nn = wantNodes
 	}
 	if persistOn {
-		e.persist = &c14persist{Persist: simstore.NewPersist(w, "db"), lg: e.lg}
+		e.persist = &c14persist{Persist: simstore.NewPersist(w, "db"), lg: e.lg, serialise: c.Intn(2, "persist.serialises") == 1 || e.topo != "standalone"}
+		if e.persist.serialise {
+			w.Probe("persist.serialising")
+		} else {
+			w.Probe("persist.keeps-reference")
+		}
 	}
 	if e.topo != "standalone" {
 		m := simstore.NewMemory(w)
@@ -272,7 +304,7 @@ func c14build(w *simrt.World, wantNodes int, faults bool) *c14env {
 	for i := 0; i < nn; i++ {
 		n := &c14node{idx: i, name: fmt.Sprintf("n%d", i+1)}
 		if e.sharedBackend != nil {
-			n.shared = &c14cache{Store: simstore.New(w, n.name+".shared", e.sharedBackend), lg: e.lg, tier: n.name + ".shared"}
+			n.shared = &c14cache{Store: simstore.New(w, n.name+".shared", e.sharedBackend), lg: e.lg, tier: n.name + ".shared", serialise: true}
 		}
 		if e.localIsShared {
 			n.local = n.shared
@@ -545,6 +577,7 @@ type c14h struct {
 	ret    int64
 	out    string // ok | err | notfound | v:<x> | true | false | l:[...]
 	list   []string
+	raw    []any // the very slice GetList handed to the caller
 }
 
 func (h c14h) String() string {
@@ -614,6 +647,7 @@ func (e *c14env) exec(client string, o c14op) c14h {
 		l, err := h.GetList(o.Key)
 		switch {
 		case err == nil || errors.Is(err, types.ErrKeyNotFound):
+			rec.raw = l
 			for _, m := range l {
 				rec.list = append(rec.list, c14canon(m))
 			}
@@ -642,16 +676,18 @@ func init() {
 		Rule: "each run draws a topology (standalone: memory cache + persistent; cluster with node-local caches + cluster cache + cluster persistent; cluster whose cluster cache is also every node's cache; persistence on/off; 1-2 nodes; cache TTLs), " +
 			"optionally one failing tier operation (tier and position drawn; in such runs the clients take turns so that only the write-back goroutine is concurrent), 1-2 keys whose prefixes are taken from the prefix tables of DefaultConfig()/RuntimePrefixes (category drawn), an initial state (absent / only in the persistent tier as after a restart / written through the facade) and a mode: " +
 			"register (2-4 clients x 2-6 of Set(unique value)/Get/Delete/Exists, Redis-style eviction of backed keys, naps across short cache TTLs; tail reads on every node after quiescence and again after all cache TTLs), " +
-			"list (AppendToList(unique member)/RemoveFromList(own member)/GetList), aux (Incr/SetNX/SetHash/SetExpiration on node A, observed from node B). " +
+			"list (AppendToList(unique member)/RemoveFromList(own member)/GetList; members present, absent, not duplicated at every read, and every returned list re-inspected at the end of the run), aux (Incr/SetNX/SetHash/SetExpiration on node A, observed from node B). " +
 			"Every tier operation and the asynchronous write-back are scheduling points. Non-trivial: two client operations on one register overlapped with at least one being a write, or a write-back was launched, or the injected tier failure fired, or a key written on one node was read on the other (aux: always when 2 nodes). distinct = distinct schedule hashes among those.",
 		Real: []string{"internal/core/storage/hybrid Storage (Set/Get/Delete/Exists/SetList/GetList/AppendToList/RemoveFromList/Incr/SetNX/SetHash/GetHash/SetExpiration, category routing, write-back goroutine)", "hybrid.DefaultConfig prefix tables", "internal/core/storage/memory as cache backends"},
-		Stub: []string{"persistent tier (JSON file / remote gRPC storage): simstore.Persist map double shared by the nodes", "Redis cluster cache: second memory backend with one handle per node", "process restart: key pre-seeded in the persistent tier with cold caches"},
+		Stub: []string{"persistent tier: simstore.Persist map double shared by the nodes; in cluster topologies (remote gRPC storage) it keeps a serialised private copy of every non-string value, in the standalone topology it is drawn whether it does or keeps the very value it was handed (the JSON-file tier holds it in a map until the next save)", "Redis cluster cache: second memory backend with one handle per node that, like the Redis backend, stores non-string values as JSON text and hands back the string", "process restart: key pre-seeded in the persistent tier with cold caches"},
 		Assumptions: []string{
 			"the persistent tier and the cluster cache are each linearizable on their own",
 			"a Redis cluster cache may drop any key at any time (maxmemory eviction/restart); node-local memory caches only lose keys by TTL",
 			"an operation that returned an error may or may not have taken effect",
 			"runtime-category keys are per node: each node is its own register",
 			"GetList of a missing key may answer not-found or an empty list",
+			"list members are appended exactly once (unique): a read that shows a member twice shows a value nobody wrote",
+			"the list a GetList handed to its caller is that read's answer and is re-inspected at the end of the run: it must still read the same",
 			"instants exactly on a TTL boundary are never generated (naps are multiples of 331ms, TTLs are not)",
 			"the tier class of the key families listed in c14ClusterFamilies/c14DurableFamilies/c14VolatileFamilies is part of the specification (pinned from config.go's documentation of what each family is for); all other prefixes are taken from DefaultConfig() at run time",
 		},
@@ -1309,6 +1345,7 @@ func c14ListOracle(e *c14env, keys []c14key, hist []c14h) {
 			}
 			return "sequential-unattributed"
 		}
+		snapCause := ""
 		report := func(class string, victim, r *c14h, why string) {
 			var lines []string
 			sorted := append([]c14h(nil), hs...)
@@ -1319,6 +1356,18 @@ func c14ListOracle(e *c14env, keys []c14key, hist []c14h) {
 			sig := fmt.Sprintf("C14:list:%s:%s", r.op.Cat, class)
 			if class == "member-lost" || class == "removed-member-back" {
 				sig = fmt.Sprintf("C14:list:%s:lost-update:%s", r.op.Cat, attribute(victim, r))
+			}
+			if class == "returned-list-changed-under-caller" {
+				sig += ":" + snapCause
+			}
+			if class == "duplicate-member" {
+				when := "no-failure"
+				for _, m := range muts {
+					if m.out == "err" && m.ret < r.ret {
+						when = "after-failed-update"
+					}
+				}
+				sig = fmt.Sprintf("C14:list:%s:duplicate-member:%s", r.op.Cat, when)
 			}
 			w.Violationf(sig,
 				"list %s (category %s, topology %s, %d node(s), persistence %v) [%s]: %s\nhistory [call,return]:\n%s\ntier operations on the key:\n%s",
@@ -1360,6 +1409,48 @@ func c14ListOracle(e *c14env, keys []c14key, hist []c14h) {
 					ok = false
 					break reads
 				}
+				if in[m] > 1 {
+					// every member is appended exactly once: a list holding it twice is a value nobody wrote
+					report("duplicate-member", r, r, fmt.Sprintf("%s contains %s %d times although it was appended once", r, m, in[m]))
+					ok = false
+					break reads
+				}
+			}
+		}
+		// a list that a read handed to its caller is that read's answer: it must not change afterwards
+		for i := range hs {
+			r := &hs[i]
+			if r.op.Kind != "GetList" || r.raw == nil {
+				continue
+			}
+			var now []string
+			for _, m := range r.raw {
+				now = append(now, c14canon(m))
+			}
+			if strings.Join(now, ",") != strings.Join(r.list, ",") {
+				snapCause = "sequential"
+				foreign := false
+				for _, m := range muts {
+					if m.client != "seed" && m.op.Node != r.op.Node {
+						foreign = true
+					}
+					if concurrent(m) {
+						snapCause = "concurrent-read-modify-write" // some update worked on a stale base
+					}
+				}
+				if snapCause == "sequential" {
+					switch {
+					case e.lateWriteback(r.op.Key, "", 1<<62):
+						snapCause = "late-writeback"
+					case e.cacheIsNodeLocal(r.op.Cat) && foreign:
+						snapCause = "other-node-cache"
+					case e.faultHit(r.op.Key, 1<<62):
+						snapCause = e.faultClass()
+					}
+				}
+				report("returned-list-changed-under-caller", r, r, fmt.Sprintf("the list returned by %s reads [%s] at the end of the run", r, strings.Join(now, ",")))
+				ok = false
+				break
 			}
 		}
 		if ok {
